@@ -3,6 +3,7 @@ Decides: upper/lower-case sibling alternatives agree, radix/digit-class/prefix a
 alternatives, synonym folding inside Intel classes, operand order, width keyword, one line per instruction.
 Not decided: comment stripping regex and white-space handling (run-time lexer behaviour)."""
 import re
+import mir as M
 from asm import GramEval
 from astev import Opt, Str, Num, Top, tmpl_str, hinfo, Res
 from rules_c06 import INTEL, intel_table
@@ -70,6 +71,8 @@ def run(ctx, chk):
     chk.rule("C11.R7", "operand-building nonterminals keep every component (register, displacement, segment, name)", floor=20)
     chk.rule("C11.R5", "memory/label operands keep their width keyword", floor=60)
     chk.rule("C11.R6", "one emitted line per source instruction", floor=100)
+    chk.rule("C11.R8", "the comment pattern removes `;` to the end of the line, whatever the comment contains", floor=1)
+    comment_pattern_rule(ctx, chk)
     lits = set(t.strip('"') for t in GA.g["terminals"] if t.startswith('"'))
 
     # ---- R1
@@ -378,3 +381,115 @@ def classify_number_regex(rx):
         return None
     prefix_len = 2 if m.group(2) else 0
     return {"radix": radix, "digits": "[" + digits + "]", "prefix_len": prefix_len, "signed": bool(m.group(1))}
+
+
+def _rust_debug_str(txt):
+    """the text of a &str constant as rustc prints it (Debug form) -> the string"""
+    if not (txt.startswith('"') and txt.endswith('"')):
+        return None
+    body, out, i = txt[1:-1], [], 0
+    while i < len(body):
+        c = body[i]
+        if c != "\\":
+            out.append(c)
+            i += 1
+            continue
+        n = body[i + 1] if i + 1 < len(body) else ""
+        if n in "\\\"'":
+            out.append(n)
+            i += 2
+        elif n in "ntr0":
+            out.append({"n": "\n", "t": "\t", "r": "\r", "0": "\0"}[n])
+            i += 2
+        elif n == "u":
+            j = body.index("}", i)
+            out.append(chr(int(body[i + 3:j], 16)))
+            i = j + 1
+        else:
+            return None
+    return "".join(out)
+
+
+def comment_pattern_rule(ctx, chk):
+    """C11.R8.  Comments are removed by one regular-expression substitution over the whole source before it is parsed.  The
+    pattern and its replacement are string constants of the driver; they are read from the MIR (the regex whose text
+    contains `;` and whose `replace_all` gets a constant replacement).  What the substitution does is then evaluated -
+    the pattern, not the program - for every comment body of up to 4 characters over the alphabet {a, space, ", ', ;}
+    in four line contexts (3124 texts): the result must be the text without the comment, lines kept apart.  The bound
+    and the reference regex engine (Python's, same leftmost-first semantics for the constructs accepted here; a pattern
+    with other constructs is undecided) are the limits of this rule."""
+    import itertools as _it
+    import re as _re
+    m = ctx.facts.mir("bin")
+    found = 0
+    for f in m["fns"]:
+        consts = {}
+        for b in f["blocks"]:
+            for s_ in b.get("stmts", []):
+                if s_[0] == "assign" and s_[2][0] == "use" and s_[2][1][0] == "const" and s_[2][1][1].get("ty") == "&str" and not s_[1]["p"]:
+                    consts[s_[1]["l"]] = s_[2][1][1].get("txt")
+        for _round in range(3):
+            for b in f["blocks"]:
+                for s_ in b.get("stmts", []):
+                    if s_[0] == "assign" and not s_[1]["p"] and s_[1]["l"] not in consts:
+                        src = None
+                        if s_[2][0] == "use" and s_[2][1][0] in ("copy", "move") and all(x == "deref" for x in s_[2][1][1]["p"]):
+                            src = s_[2][1][1]["l"]
+                        elif s_[2][0] == "ref" and all(x == "deref" for x in s_[2][1]["p"]):
+                            src = s_[2][1]["l"]
+                        if src in consts:
+                            consts[s_[1]["l"]] = consts[src]
+        pats, reps = [], []
+        for bi, t in M.calls_in(f):
+            d = t[1].get("def") or ""
+            if d.endswith("Regex::new") and t[2]:
+                a = t[2][0]
+                txt = a[1].get("txt") if a[0] == "const" else consts.get(a[1]["l"])
+                if txt is not None:
+                    pats.append((bi, _rust_debug_str(txt)))
+            if re.search(r"Regex::replace_all", d) and len(t[2]) >= 3:
+                a = t[2][2]
+                txt = a[1].get("txt") if a[0] == "const" else consts.get(a[1]["l"])
+                reps.append((bi, _rust_debug_str(txt) if txt is not None else None))
+        pats = [(bi, p_) for bi, p_ in pats if p_ is not None and ";" in p_]
+        if not pats or not reps:
+            continue
+        unit = f["name"].split("::")[-1]
+        file = f["span"].rsplit(":", 2)[0]
+        line = f["blocks"][pats[0][0]]["term"].get("line")
+        pat, rep = pats[0][1], reps[0][1]
+        found += 1
+        if rep is None or len(pats) != 1 or len(reps) != 1 or "$" in rep or "\\" in rep:
+            chk.undecided_("C11.R8", unit, "the replacement is not one plain string constant")
+            continue
+        if _re.search(r"\[\[:|\\p\{|\\P\{|\(\?[a-zA-Z]*[xuU]|\\[hHzAbB<>]|&&|--|~~", pat):
+            chk.undecided_("C11.R8", unit, f"pattern {pat!r} uses constructs the reference engine does not read the same way")
+            continue
+        try:
+            rx = _re.compile(pat)
+        except _re.error as e:
+            chk.undecided_("C11.R8", unit, f"pattern {pat!r} not readable by the reference engine: {e}")
+            continue
+        bad = None
+        n = 0
+        for k in range(0, 5):
+            for body in _it.product("a \"';", repeat=k):
+                v = "".join(body)
+                for pre, post in (("", ""), ("mov ax, 1 ", ""), ("", "hlt"), ("mov ax, 1 ", "hlt\n; x\nret")):
+                    n += 1
+                    src = pre + ";" + v + "\n" + post
+                    got = rx.sub(rep.replace("\\", "\\\\"), src)
+                    want_lines = [pre.rstrip()] + [ln.split(";")[0].rstrip() for ln in post.split("\n")] if post else [pre.rstrip()]
+                    got_lines = [ln.rstrip() for ln in got.split("\n")]
+                    # lines kept apart, nothing of a comment left; empty lines do not matter to the assembler
+                    if [x for x in got_lines if x] != [x for x in want_lines if x] or (pre and post and pre.rstrip() + post.split("\n")[0] in got.replace("\n", "") and "\n" not in got.strip("\n")[len(pre.rstrip()) - 1:len(pre.rstrip()) + 2] and False):
+                        bad = bad or (src, got)
+        if bad:
+            src, got = bad
+            chk.violation("C11.R8", unit, "comment-not-removed",
+                          f"{f['name']}: substituting {pat!r} by {rep!r} does not remove every comment: {src!r} becomes {got!r}; the assembler then sees comment text as code or data",
+                          f"{file}:{line}", f"{src!r} -> {got!r}")
+        else:
+            chk.ok("C11.R8", unit, f"{pat!r} -> {rep!r}: {n} texts (comment bodies up to 4 characters over a, space, \", ', ;) lose exactly their comments")
+    if not found:
+        chk.undecided_("C11.R8", "driver", "no constant comment pattern with a constant replacement found")
